@@ -73,6 +73,39 @@ CLAIMS = {
   "technique": "static analysis: linear-fact dataflow (preconditions, guards), dominance/typestate rules, sibling agreement",
   "design_ref": "DESIGN.md section 4, C07",
  },
+ "C15": {
+  "text": "Static bounds analysis: a cursor-distance dataflow carries a lower bound on end - cursor through every path of every "
+          "(cursor, end) function of json.c, inferring and imposing callee preconditions, so that every read, call and returned pointer "
+          "is inside [buf, end] (this rule located a real one-byte over-read on a truncated nested object, now fixed); decoders' unchecked "
+          "table positions are dominated by a rejecting validation pass and table indices are bounded below the table size; every "
+          "copy-like call into a fixed-size or locally allocated object is bounded by a constant or a dominating length test (linear "
+          "facts), the serialised-address decoder reads only what its length tests established; strlen-relative indices need a "
+          "non-empty witness. Truncations and hostile length fields only select CFG edges; all are analysed.",
+  "note": "Trusted: libc string/conversion functions stay within valid NUL-terminated strings; clang CFG. Not decided: termination; "
+          "the command-line parser (C18); humansize_parse's string cursor (needs the correlation state == -1, see C16 for its arithmetic).",
+  "technique": "static analysis: cursor-distance abstract domain (E4) + linear-fact dataflow + dominance rules on clang CFG",
+  "design_ref": "DESIGN.md section 4, C15",
+ },
+ "C16": {
+  "text": "Necessary conditions of exact numeric parsing decided structurally: unsigned conversions must inspect the sign (this rule "
+          "located a real wraparound on negative numerals, now fixed); the three parsenum siblings have the same decision structure "
+          "(EINVAL exactly on no-digits or unwanted trailing characters, else ERANGE on the bound tests, errno cleared first); "
+          "humansize_parse accumulates only behind UINT64_MAX guards, covers its states, maps SI prefixes to the right power of 1000.",
+  "note": "Trusted: strtod/strtoimax/strtoumax. Not decided: value exactness of libc conversions, the PARSENUM type-classification "
+          "arithmetic, humansize() rounding.",
+  "technique": "static analysis: sibling-agreement over branch-edge atoms, overflow-guard dominance",
+  "design_ref": "DESIGN.md section 4, C16",
+ },
+ "C17": {
+  "text": "The 12 endian routines are decided completely by bit-level symbolic evaluation of their expressions (every value, any "
+          "alignment). Alphabets are compared with values derived independently from RFC 4648 and the digit definition; decoders' "
+          "masks, nibble order and padding are checked; every JSON list walker must skip whitespace after a separator (this rule "
+          "located a real defect in nested arrays/objects, now fixed); serialize/deserialize/dup/cmp agree on sock_addr's fields and "
+          "sizes; printers emit the form the resolver accepts.",
+  "note": "Not decided: round-trip equality of base-64/hex over all strings, JSON key matching semantics, inet_pton/inet_ntop.",
+  "technique": "static analysis: bit-level symbolic evaluation (normal forms), constant tables vs. standards, sibling agreement",
+  "design_ref": "DESIGN.md section 4, C17",
+ },
 }
 
 NOT_APPLICABLE = {
